@@ -23,7 +23,8 @@ from typing import Dict, List, Optional, Set, Tuple
 from ..classify import classify
 from ..model import AnalysisError, ClassInfo, FunctionInfo
 from ..sym import NONE, Term, mentions, show, subterms
-from ..util import (SELF, arg, callee, is_call, method_call, paths, returning, short, where)
+from ..util import (SELF, arg, callee, closure_nodes, is_call, method_call, path_guards, paths,
+                    returning, short, where)
 
 EXPLANATION = ('Table extraction from the classification predicates of graph/inspection.py and the '
                'two case chains of graph/annotation.py (compared as data), def-use analysis of '
@@ -75,14 +76,17 @@ def case_chain(fn: FunctionInfo, var_names: Tuple[str, ...]) -> List[Tuple[str, 
         out = []
         cur: Optional[ast.If] = node
         while cur is not None:
-            t = cur.test
-            keys = []
-            for c in ast.walk(t):
-                if isinstance(c, ast.Subscript) and isinstance(c.value, ast.Attribute) and \
-                        c.value.attr == 'meta' and isinstance(c.slice, ast.Constant) and \
-                        isinstance(c.value.value, ast.Name) and c.value.value.id in var_names:
-                    keys.append((c.value.value.id, c.slice.value))
-            out.append(keys[0] if keys else ('', ast.unparse(t)[:40]))
+            # "a or b or c": one case per alternative, in the written (evaluation) order
+            alts = cur.test.values if isinstance(cur.test, ast.BoolOp) and \
+                isinstance(cur.test.op, ast.Or) else [cur.test]
+            for t in alts:
+                keys = []
+                for c in ast.walk(t):
+                    if isinstance(c, ast.Subscript) and isinstance(c.value, ast.Attribute) and \
+                            c.value.attr == 'meta' and isinstance(c.slice, ast.Constant) and \
+                            isinstance(c.value.value, ast.Name) and c.value.value.id in var_names:
+                        keys.append((c.value.value.id, c.slice.value))
+                out.append(keys[0] if keys else ('', ast.unparse(t)[:40]))
             nxt = cur.orelse
             if len(nxt) == 1 and isinstance(nxt[0], ast.If):
                 cur = nxt[0]
@@ -519,8 +523,8 @@ def r09d(ctx):
     n = 0
     for base in ('PITModule', 'MPSModule'):
         for ci in repo.subclasses(repo.cls(base), strict=True):
-            g = ci.getters.get('in_features_opt')
-            if g is not None:
+            g = repo.find_getter(ci, 'in_features_opt')     # own or inherited
+            if g is not None and returning(paths(repo, g)):
                 n += 1
                 ok = all(mentions(p.retval, lambda x: x == ('attr', ifc, 'features_mask'))
                          for p in returning(paths(repo, g)))
@@ -626,70 +630,59 @@ def r09e(ctx):
     repo = ctx.repo
     table = node_table(ctx)
     ctx.floor('R09e', 'node flags with a predicate', len(ctx._pred_of), 8)
-    # derivation kind of every branch of the add_features_calculator chain
+    # derivation kind of every branch of the add_features_calculator chain, from the values the
+    # pass stores under meta['features_calculator'] on each path (helpers looked through) and
+    # the node-flag tests that guard the store
     afc = repo.fn('add_features_calculator')
-    chain_kind: List[Tuple[str, str]] = []
 
-    def assigned_calcs(body) -> List[ast.AST]:
-        out = []
-        for st in body:
-            for n in ast.walk(st):
-                if isinstance(n, ast.Assign) and isinstance(n.targets[0], ast.Subscript) and \
-                        isinstance(n.targets[0].slice, ast.Constant) and \
-                        n.targets[0].slice.value == 'features_calculator':
-                    out.append(n.value)
-        return out
+    def flag_guards(p, e):
+        return [(a[2][1], v) for a, v in path_guards(p, e)
+                if a[0] == 'sub' and a[2][0] == 'const' and a[1][0] == 'attr' and
+                a[1][2] == 'meta' and isinstance(a[2][1], str)]
 
-    def kind_of(body) -> str:
-        local = {}
-        for st in body:
-            for n in ast.walk(st):
-                if isinstance(n, ast.Assign) and len(n.targets) == 1 and \
-                        isinstance(n.targets[0], ast.Name):
-                    local[n.targets[0].id] = n.value
-        kinds = set()
-        for v in assigned_calcs(body):
-            txt = ast.unparse(v)
-            for name, d in local.items():
-                if name in {x.id for x in ast.walk(v) if isinstance(x, ast.Name)}:
-                    txt += ' <- ' + ast.unparse(d)
-            if 'Concat' in txt:
-                kinds.add('stack')
-            elif "all_input_nodes[0].meta['features_calculator']" in txt:
-                kinds.add('follow')
+    def first_input_calc(x):
+        return x[0] == 'sub' and x[2] == ('const', 'features_calculator') and \
+            x[1][0] == 'attr' and x[1][2] == 'meta' and x[1][1][0] == 'sub' and \
+            x[1][1][2] == ('const', 0) and x[1][1][1][0] == 'attr' and \
+            x[1][1][1][2] == 'all_input_nodes'
+    order: List[str] = []
+    kinds: Dict[str, Set[str]] = {}
+    for p in paths(repo, afc):
+        for e in p.events:
+            if e.kind == 'assume':
+                a = e.data[0]
+                if a[0] == 'sub' and a[2][0] == 'const' and a[1][0] == 'attr' and \
+                        a[1][2] == 'meta' and a[2][1] not in order:
+                    order.append(a[2][1])
+            if e.kind != 'setitem' or e.data[1] != ('const', 'features_calculator'):
+                continue
+            g = flag_guards(p, e)
+            key = next((k for k, v in g if v), None)
+            if key is None:
+                continue
+            v = e.data[2]
+            if mentions(v, lambda x: x[0] == 'global' and 'Concat' in x[1].rsplit('.', 1)[-1]):
+                kd = 'stack'
+            elif mentions(v, first_input_calc):
+                kd = 'follow'
             else:
-                kinds.add('own')
-        if not kinds:
-            return 'none'
-        return kinds.pop() if len(kinds) == 1 else 'mixed:' + '/'.join(sorted(kinds))
-
-    top = None
-    for n in ast.walk(afc.node):
-        if isinstance(n, ast.If):
-            keys = [k for _v, k in case_chain_from(n)]
-            if top is None or len(keys) > len(top[1]):
-                top = (n, keys)
-    cur = top[0]
-    while cur is not None:
-        key = None
-        for c in ast.walk(cur.test):
-            if isinstance(c, ast.Subscript) and isinstance(c.value, ast.Attribute) and \
-                    c.value.attr == 'meta' and isinstance(c.slice, ast.Constant):
-                key = c.slice.value
-                break
-        chain_kind.append((key or ast.unparse(cur.test)[:30], kind_of(cur.body)))
-        nxt = cur.orelse
-        cur = nxt[0] if len(nxt) == 1 and isinstance(nxt[0], ast.If) else None
+                kd = 'own'
+            kinds.setdefault(key, set()).add(kd)
+    chain_kind: List[Tuple[str, str]] = []
+    for key in order:
+        ks = kinds.get(key, set())
+        chain_kind.append((key, 'none' if not ks else ks.copy().pop() if len(ks) == 1 else
+                           'mixed:' + '/'.join(sorted(ks))))
     ctx.floor('R09e', 'branches of add_features_calculator', len(chain_kind), 8)
     # the cut condition
     bs = repo.fn('build_shared_features_map')
     cut = None
-    for n in ast.walk(bs.node):
+    for fi_, n in closure_nodes(repo, bs):
         if isinstance(n, ast.If) and any(isinstance(x, ast.Call) and
                                          isinstance(x.func, ast.Attribute) and
                                          x.func.attr in ('remove_edge', 'remove_edges_from')
                                          for st in n.body for x in ast.walk(st)):
-            cut = n
+            cut, bs = n, fi_
             break
     if cut is None:
         raise AnalysisError('R09e: edge-removal condition of build_shared_features_map not found')
